@@ -2,7 +2,7 @@
 // functions of /repo are verified against, and the ASSUMED contracts of the foreign functions they call.
 // Everything in this file is part of the trusted base and is listed as such in every evidence file
 // (vtool/scan.py enumerates the `assume_specification`, `axiom`, `external_body`, `uninterp` items).
-#![allow(unused_imports)]
+#![allow(unused_imports, non_camel_case_types)]
 use vstd::prelude::*;
 use vstd::std_specs::iter::IteratorSpec;
 use std::collections::BTreeMap;
@@ -140,6 +140,20 @@ pub assume_specification<'a, T: Eq + core::hash::Hash>[ naga::UniqueArena::<T>::
             r.remaining().len() == uarena_seq(a).len(),
             forall|i: int| 0 <= i < uarena_seq(a).len() ==> handle_index((#[trigger] r.remaining()[i]).0) == i && *r.remaining()[i].1 == uarena_seq(a)[i];
 
+// ---------------- naga::StorageAccess (foreign bitflags: opaque, bits as an uninterpreted view) ----------------
+// naga 24: LOAD = 1, STORE = 2, ATOMIC = 4.  Associated constants of a foreign type cannot be specified,
+// so the extracted code calls sa_load()/sa_store()/sa_atomic() where /repo writes naga::StorageAccess::LOAD/..
+// (a unit-wide mechanical rewrite, logged in the evidence); the bodies return the real constants.
+pub uninterp spec fn sa_bits(a: naga::StorageAccess) -> u32;
+pub assume_specification[ naga::StorageAccess::contains ](a: &naga::StorageAccess, b: naga::StorageAccess) -> (r: bool)
+    ensures r == (sa_bits(*a) & sa_bits(b) == sa_bits(b));
+#[verifier::external_body]
+pub const fn sa_load() -> (r: naga::StorageAccess) ensures sa_bits(r) == 1 { naga::StorageAccess::LOAD }
+#[verifier::external_body]
+pub const fn sa_store() -> (r: naga::StorageAccess) ensures sa_bits(r) == 2 { naga::StorageAccess::STORE }
+#[verifier::external_body]
+pub const fn sa_atomic() -> (r: naga::StorageAccess) ensures sa_bits(r) == 4 { naga::StorageAccess::ATOMIC }
+
 // ---------------- blocks (opaque; the statement tree is finite) ----------------
 pub uninterp spec fn block_stmts(b: &naga::Block) -> Seq<naga::Statement>;
 pub uninterp spec fn block_height(b: &naga::Block) -> nat;
@@ -159,6 +173,14 @@ pub open spec fn sub_blocks(s: &naga::Statement) -> Seq<naga::Block> {
 pub broadcast axiom fn axiom_block_height(b: &naga::Block, i: int, k: int)
     requires 0 <= i < block_stmts(b).len(), 0 <= k < sub_blocks(&block_stmts(b)[i]).len(),
     ensures #[trigger] block_height(&sub_blocks(&block_stmts(b)[i])[k]) < block_height(b);
+
+// String's Ord is a lawful total order (needed by vstd's BTreeMap<String, _> specs)
+pub broadcast axiom fn axiom_string_obeys_cmp()
+    ensures #[trigger] vstd::laws_cmp::obeys_cmp::<String>();
+
+// ---------------- Option helpers missing from vstd ----------------
+pub assume_specification<'a, T: Copy>[ Option::<&'a T>::copied ](o: Option<&'a T>) -> (r: Option<T>)
+    ensures r == (match o { Some(x) => Some(*x), None => None });
 
 // ---------------- BTreeMap::entry().or_insert() (pattern of vstd's HashMap entry specs) ----------------
 pub uninterp spec fn ekey<'a, K, V, A: core::alloc::Allocator + Clone>(e: Entry<'a, K, V, A>) -> K;
